@@ -137,6 +137,15 @@ def run(ctx):
             ts, main = g.template_set()
             if idx % 3 == 2:
                 ts[main] = "{% autoescape true %}<p>" + ts[main] + "</p>{% endautoescape %}" if "extends" not in ts[main] else ts[main]
+            if idx % 4 == 3 and "extends" not in ts[main]:
+                # a partial that is included without context AND imported and printed as a module: the entry
+                # points run one after the other on one environment, so state kept in the cached module
+                # (TemplateModule._body_stream) is shared between them
+                libs = [n for n in ts if n.startswith(("lib", "inc"))] or ["part.html"]
+                part = libs[0]
+                ts.setdefault(part, "[partial {{ 1 + 1 }}]")
+                ts[main] = ("{% include '" + part + "' without context %}|" + ts[main]
+                            + "|{% import '" + part + "' as MM %}{{ MM }}|{% include '" + part + "' without context %}")
             data = g.data()
             case = {"templates": ts, "data": data, "index": idx, "autoescape": auto}
             w = oracle_entry_points(jinja2, ts, main, data, tmpdir, ctx, auto)
@@ -200,6 +209,12 @@ def oracle_entry_points(jinja2, ts, main, data, tmpdir, ctx, autoescape=False):
         mod = t.make_module(data)
         if str(mod) != ref:
             return "str(make_module()) differs from render()"
+        if str(mod) != ref or mod.__html__() != ref:
+            return "str()/__html__() of the module differ on a second conversion"
+        if t.render(**data) != ref:
+            return "a second render() after the other entry points differs from the first"
+        if "".join(t.generate(**data)) != ref:
+            return "generate() after str(module) differs from render()"
     except Exception as e:
         return f"entry point raised {type(e).__name__}: {e} although render() succeeded"
     nontriv = len(pieces) >= 2 and ref != ""
